@@ -2,8 +2,10 @@ package dataflow
 
 import (
 	"go/token"
+	"go/types"
 
 	"github.com/awslabs/ar-go-tools/analysis/config"
+	"github.com/awslabs/ar-go-tools/internal/pointer"
 	"golang.org/x/tools/go/ssa"
 )
 
@@ -56,4 +58,100 @@ func (w *VerifEdgeWorld) VerifAddCallReturnEdge(tupleIndex int, accessPath strin
 	}
 	m := NewMark(w.Call, CallReturn, nil, idx, "")
 	w.G.addEdge(MarkWithAccessPath{Mark: &m, AccessPath: accessPath}, w.Dst, nil)
+}
+
+// VerifMainWorld is a hand-built function `main`:
+//
+//	t0 = srcA(); t1 = srcB(); t2 = t[x] + t[y]; sink(v[a0], v[a1]); return
+//
+// summarised by the real NewSummaryGraph + RunIntraProcedural, with constructed (empty) summaries linked for the
+// three external callees, as BuildGraph would do.
+type VerifMainWorld struct {
+	State   *AnalyzerState
+	Main    *SummaryGraph
+	SrcA    *CallNode
+	SrcB    *CallNode
+	Sink    *CallNode
+	Err     error
+	Origins [2][2]bool // Origins[j][o]: argument j of the sink derives from origin o (0 = srcA, 1 = srcB)
+}
+
+func verifExternal(name string, np, nr int, pkg *ssa.Package) *ssa.Function {
+	fn := &ssa.Function{Signature: hSig(np, nr), Pkg: pkg}
+	verifSetUnexported(fn, "name", name)
+	for i := 0; i < np; i++ {
+		p := hParam("p")
+		verifSetUnexported(p, "parent", fn)
+		verifSetUnexported(p, "typ", types.Type(types.Typ[types.Int]))
+		fn.Params = append(fn.Params, p)
+	}
+	return fn
+}
+
+func VerifNewMainWorld(x, y, a0, a1 int) *VerifMainWorld {
+	w := &VerifMainWorld{}
+	intT := types.Type(types.Typ[types.Int])
+	pkg := &ssa.Package{Pkg: types.NewPackage("example.com/p", "p")}
+	prog := &ssa.Program{Fset: token.NewFileSet()}
+	mainFn := &ssa.Function{Signature: hSig(0, 0), Prog: prog, Pkg: pkg}
+	verifSetUnexported(mainFn, "name", "main")
+	srcA := verifExternal("srcA", 0, 1, pkg)
+	srcB := verifExternal("srcB", 0, 1, pkg)
+	sink := verifExternal("sink", 2, 0, pkg)
+	blk := &ssa.BasicBlock{Index: 0}
+	mk := func(i ssa.Instruction, t types.Type) ssa.Instruction {
+		if t != nil {
+			verifSetUnexported(i, "typ", t)
+		}
+		return i
+	}
+	cA := &ssa.Call{}
+	cA.Call.Value = srcA
+	cB := &ssa.Call{}
+	cB.Call.Value = srcB
+	mk(cA, intT)
+	mk(cB, intT)
+	ts := []ssa.Value{cA, cB}
+	sum := &ssa.BinOp{Op: token.ADD, X: ts[x], Y: ts[y]}
+	mk(sum, intT)
+	vals := []ssa.Value{cA, cB, sum}
+	from := [][2]bool{{true, false}, {false, true}, {x == 0 || y == 0, x == 1 || y == 1}}
+	cS := &ssa.Call{}
+	cS.Call.Value = sink
+	cS.Call.Args = []ssa.Value{vals[a0], vals[a1]}
+	mk(cS, types.Type(types.NewTuple()))
+	w.Origins = [2][2]bool{from[a0], from[a1]}
+	ret := &ssa.Return{}
+	hSetBlock(mainFn, blk, []ssa.Instruction{cA, cB, sum, cS, ret})
+	mainFn.Blocks = []*ssa.BasicBlock{blk}
+
+	cfg := &config.Config{}
+	s := &AnalyzerState{
+		Config:          cfg,
+		Logger:          &config.LogGroup{},
+		Program:         prog,
+		PointerAnalysis: &pointer.Result{Queries: map[ssa.Value]pointer.Pointer{}, IndirectQueries: map[ssa.Value]pointer.Pointer{}},
+		Globals:         map[*ssa.Global]*GlobalNode{},
+		FlowGraph:       &InterProceduralFlowGraph{Summaries: map[*ssa.Function]*SummaryGraph{}},
+	}
+	w.State = s
+	track := func(*AnalyzerState, ssa.Node) bool { return false }
+	w.Main = NewSummaryGraph(s, mainFn, 1, track, nil)
+	_, w.Err = RunIntraProcedural(s, w.Main)
+	s.FlowGraph.Summaries[mainFn] = w.Main
+	link := func(call *ssa.Call, callee *ssa.Function, id uint32) *CallNode {
+		sg := NewSummaryGraph(s, callee, id, track, nil)
+		sg.Constructed = true
+		s.FlowGraph.Summaries[callee] = sg
+		cn := w.Main.Callees[call][callee]
+		if cn != nil {
+			cn.CalleeSummary = sg
+			sg.Callsites[call] = cn
+		}
+		return cn
+	}
+	w.SrcA = link(cA, srcA, 2)
+	w.SrcB = link(cB, srcB, 3)
+	w.Sink = link(cS, sink, 4)
+	return w
 }
